@@ -94,6 +94,15 @@ def diff_sig(a, b):
     return None
 
 
+def spoil(props, macros):
+    """what a caller may do with its own dictionaries after addProfile()"""
+    for d in (props, macros):
+        if d:
+            for key in list(d):
+                d[key] = '((( spoiled'
+            d['zz-later'] = 'x'
+
+
 def run_history(ctx, cssutils, rng, use_global=False, ops_in=None, raising_in=None):
     P = cssutils.profiles
     builtins = None
@@ -117,7 +126,7 @@ def run_history(ctx, cssutils, rng, use_global=False, ops_in=None, raising_in=No
             if script is not None:
                 op = script[step]
             else:
-                kinds = ['add'] * 4 + ['remove'] * 3 + ['remove-unknown', 'default', 'default-none', 'add-remove']
+                kinds = ['add'] * 4 + ['remove'] * 3 + ['remove-unknown', 'default', 'default-none', 'add-remove', 'default-detour']
                 if not use_global:
                     kinds += ['remove-builtin', 'readd-builtin', 'remove-all-readd']
                 k = rng.choice(kinds)
@@ -130,8 +139,10 @@ def run_history(ctx, cssutils, rng, use_global=False, ops_in=None, raising_in=No
                     if not registered:
                         continue
                     op.append(rng.choice(registered))
-                elif k == 'default':
+                elif k in ('default', 'default-detour'):
                     op.append(rng.sample(list(reg.profiles), rng.randint(1, min(3, len(reg.profiles)))) if reg.profiles else [])
+                    if k == 'default-detour' and not op[1]:
+                        continue
                 elif k == 'remove-builtin':
                     present = [b for b in builtins if b in reg.profiles]
                     if len(present) < 3:
@@ -148,7 +159,15 @@ def run_history(ctx, cssutils, rng, use_global=False, ops_in=None, raising_in=No
             before = signature(reg) if k in ('add-remove', 'remove-unknown') else None
             if k == 'add':
                 props, macros = CUSTOM[op[1]]
-                reg.addProfile(op[1], dict(props), dict(macros) if macros else None)
+                pd, md = dict(props), (dict(macros) if macros else None)
+                reg.addProfile(op[1], pd, md)
+                # the dictionaries handed over stay the caller's: what happens to them afterwards is none of the registry's business
+                spoil(pd, md)
+            elif k == 'default-detour':
+                # the usual save / change / restore of the defaults leaves things as they were
+                saved = reg.defaultProfiles
+                reg.defaultProfiles = op[1]
+                reg.defaultProfiles = saved
             elif k == 'remove':
                 reg.removeProfile(op[1])
             elif k == 'add-remove':
@@ -196,7 +215,9 @@ def run_history(ctx, cssutils, rng, use_global=False, ops_in=None, raising_in=No
                 reg.addProfiles([(b, dict(P.properties[b]), dict(P.macros[P.Profiles.CSS3_FONTS if b == P.Profiles.CSS3_FONT_FACE else b])) for b in builtins])
                 for c in customs:
                     props, macros = CUSTOM[c]
-                    reg.addProfile(c, dict(props), dict(macros) if macros else None)
+                    pd, md = dict(props), (dict(macros) if macros else None)
+                    reg.addProfile(c, pd, md)
+                    spoil(pd, md)
             if default is not None and any(p not in reg.profiles for p in default):
                 default = None
                 reg.defaultProfiles = None
